@@ -1295,7 +1295,8 @@ struct TemplateCore {
             const SizeT   loop_size      = loop_set->Size();
             SizeT         loop_index     = 0;
 
-            if (loops_items_->Size() <= tag.Level) {
+            while (loops_items_->Size() <= tag.Level) {
+                // The level counts enclosing <if> blocks too, so it can be ahead of the number of loops by more than one.
                 *loops_items_ += LoopItem{};
             }
 
